@@ -37,7 +37,7 @@ var Check = &run.Check{
 	ID:    "C03",
 	Level: "exploration",
 	Rule: "case = synthetic code model (1-40 methods over 1-8 classes; modes random/dag/tree/chain/cycle/fan-in/small-tree/mutual/dense, " +
-		"sprinkled self-loops, parallel edges, unresolved and external callees, names with quotes) + root (hub/any/leaf/absent) + lookup flag, or an API list + DI map; " +
+		"sprinkled self-loops, parallel edges, unresolved and external callees, names with quotes, non-ASCII letters and identifier-ignorable format characters; classes recorded as Class / Interface (default methods have bodies) / unrecorded) + root (hub/any/leaf/absent) + lookup flag, or an API list + DI map; " +
 		"executed through call.CallGraph.Analysis / AnalysisByFiles in-process and through `coca call` / `coca api -c` for every Nth case; " +
 		"non-trivial = root has >= 2 resolved callees and the reachable relation has a cycle or a shared callee; distinct = hash of (mode, adjacency structure, root index, lookup, api/di shape)",
 	Assumptions: []string{
@@ -116,10 +116,10 @@ func checkDot(o *run.Outcome, what, dot string) ([]obs.Edge, bool) {
 
 func runCase(c *run.Ctx, o *run.Outcome) {
 	r := c.Rng
-	m := modelgen.Generate(r.Fork(), modelgen.Opts{MaxClasses: 8, MaxMethods: 40, MaxOut: 6, Quotes: true, DefaultPkg: true})
+	m := modelgen.Generate(r.Fork(), modelgen.Opts{MaxClasses: 8, MaxMethods: 40, MaxOut: 6, Quotes: true, DefaultPkg: true, Kinds: true, OddRunes: true})
 	if r.Chance(1, 2) {
 		// half of the cases are small, so that trees that fit the budget are well represented
-		m = modelgen.Generate(r.Fork(), modelgen.Opts{MaxClasses: 4, MaxMethods: 9, MaxOut: 3, Quotes: true, DefaultPkg: true})
+		m = modelgen.Generate(r.Fork(), modelgen.Opts{MaxClasses: 4, MaxMethods: 9, MaxOut: 3, Quotes: true, DefaultPkg: true, Kinds: true, OddRunes: true})
 	}
 	deps := common.ToCoca(m)
 	o.Count("methods", len(m.Methods()))
